@@ -202,84 +202,3 @@ func charSupport(c supChar) error {
 	}
 	return nil
 }
-
-// Local injectivity for recipes too large to enumerate. With all other index
-// choices held fixed, varying ONE draw over all its alternatives must give
-// pairwise different passwords: if two alternatives of a draw gave the same
-// password, that password would collect the probability of both and the
-// result could not be uniform over the outcomes the entropy counts. The check
-// is model-free (it never says which draw does what). Draws that the
-// generator legitimately discards are allowed only as one contiguous block at
-// the very start or the very end of the call, no longer than `slack` draws
-// (wordlist generation makes one extra separator call when it computes the
-// entropy it stores in the Password).
-func localInjectivity(g func() (*spg.Password, error), key uint64, maxDraws int, slack int, maxBound uint32, fixed []uint32) (checked int, err error) {
-	ctx := func(j int, n uint32) uint32 {
-		if fixed != nil {
-			return fixed[j%len(fixed)] % n // the context is a known accepted candidate
-		}
-		return uint32(ev.Mix64(key, uint64(j)) % uint64(n))
-	}
-	base := callForced(nil, ctx, key, g)
-	if base.Panic != nil {
-		return 0, fmt.Errorf("Generate panicked: %v", base.Panic)
-	}
-	if e := base.S.IndexLevelOK(); e != nil {
-		return 0, &ev.Inc{Why: e.Error()}
-	}
-	if base.Pw == nil {
-		return 0, &ev.Skip{Why: "context does not generate"}
-	}
-	nd := len(base.S.Draws)
-	if nd > maxDraws {
-		return 0, &ev.Skip{Why: "too many draws"}
-	}
-	var dead []int
-	for d := 0; d < nd; d++ {
-		b := base.S.Draws[d].Bound
-		if b < 2 || b > maxBound {
-			continue
-		}
-		seen := map[string]uint32{}
-		collide := false
-		var c1, c2 uint32
-		var out string
-		for j := uint32(0); j < b; j++ {
-			dd, jj := d, j
-			o := callForced(nil, func(k int, n uint32) uint32 {
-				if k == dd {
-					return jj % n
-				}
-				return ctx(k, n)
-			}, key, g)
-			if o.Panic != nil {
-				return checked, fmt.Errorf("Generate panicked: %v", o.Panic)
-			}
-			if o.Pw == nil || len(o.S.Draws) != nd {
-				continue // this alternative changed the shape of the run (e.g. a rejected candidate)
-			}
-			k := tokKey(toToks(o.Pw.Tokens()))
-			if p, ok := seen[k]; ok {
-				collide, c1, c2, out = true, p, j, o.Pw.String()
-				break
-			}
-			seen[k] = j
-		}
-		checked++
-		if collide {
-			dead = append(dead, d)
-			if len(dead) > slack {
-				return checked, fmt.Errorf("draw %d of %d (one of %d alternatives): alternatives %d and %d give the same password %.80q with all other choices fixed - so do %d other draws; that password is more likely than uniform", d, nd, b, c1, c2, out, len(dead)-1)
-			}
-		}
-	}
-	if len(dead) > 0 {
-		// allowed only as one contiguous block at the start or at the end
-		contiguous := dead[len(dead)-1]-dead[0] == len(dead)-1
-		atEdge := dead[0] == 0 || dead[len(dead)-1] == nd-1
-		if !contiguous || !atEdge {
-			return checked, fmt.Errorf("draws %v of %d have alternatives that give the same password with all other choices fixed (not a discarded block at the start or end of the call)", dead, nd)
-		}
-	}
-	return checked, nil
-}
